@@ -39,6 +39,13 @@ structure Cfg where
   blocking : Bool
   /-- the close signal in `AddCallback` is a plain send too (true, as coded) -/
   closeBlocking : Bool := true
+  /-- the repaired store (`stepR` below): `Put` holds the WRITE lock around its dispatch loop; a callback registered with
+  `AddStreamCallback` whose queue is full is ENDED there and then (deregistered, channel closed, close notice after what
+  is queued) — never waited for, never skipped; a callback of the node itself (`AddCallback`) still gets a plain send;
+  close notices travel outside the queue, so `AddCallback` never waits either -/
+  ends : Bool := false
+  /-- repaired store: the ids registered through `AddStreamCallback` (in drand: "SyncChain-" + remote address) -/
+  streamIds : List String := []
   deriving DecidableEq, Repr
 
 structure InPut where
@@ -163,5 +170,67 @@ def run (cfg : Cfg) : St → List Ev → Option St
 /-- a schedule in which steps that are not enabled are simply not taken (the goroutine stays blocked) -/
 def runSkip (cfg : Cfg) (s : St) (es : List Ev) : St :=
   es.foldl (fun s e => (step cfg s e).getD s) s
+
+/-! ### the repaired store
+
+  Put              c.Lock(); defer c.Unlock(); for id, cb := range c.callbacks { j, ok := c.newJob[id]; if !ok { continue }
+                     job := cbPair{cb, b}
+                     if !c.workers[id].stream { j <- job; continue }
+                     select { case j <- job: default: c.stopWorker(id, true); delete(c.callbacks, id) } }
+  addCallback      c.Lock(); if exists { c.stopWorker(id, true) }; fresh channel, fresh worker
+  RemoveCallback   c.Lock(); delete(c.callbacks, id); if exists { c.stopWorker(id, false) }
+  stopWorker       if notify { c.workers[id].closed = c.callbacks[id] }; close(c.newJob[id]); delete both entries
+  runWorker        … case job, ok := <-jobChan: if !ok { if w.closed != nil { w.closed(nil, true) }; return }
+
+A channel that was closed with a notice is an orphan whose queue ends with `.close`: its worker (`takeO` / `doneO`) first
+delivers what was queued, then the notice. Events are those of `step`; `addResume` never applies (nothing blocks inside
+`addCallback`). -/
+
+/-- `stopWorker(id, true)` + removal of the table entry: the worker of `c` goes on with what is queued, then `closed` -/
+def endChan (s : St) (id : String) (c : Chan) : St :=
+  { s with chans := s.chans.filter (·.1 != id),
+           orphans := s.orphans.filter (·.1 != id) ++ [(id, { c with queue := c.queue ++ [.close] })] }
+
+def stepR (cfg : Cfg) (s : St) : Ev → Option St
+  | .putBegin b =>
+    -- the dispatch loop runs under the WRITE lock: one Put at a time, and not while Add/RemoveCallback run (they are atomic here)
+    if !s.puts.isEmpty then none else step cfg s (.putBegin b)
+  | .putSend i =>
+    match s.puts[i]? with
+    | none => none
+    | some p =>
+      match p.rem with
+      | [] => none
+      | id :: rest =>
+        match chanOf s id with
+        | none => some { s with puts := s.puts.set i { p with rem := rest } }      -- `if !ok { continue }`
+        | some c =>
+          if c.queue.length < cfg.cap then
+            some { setChan s id { c with queue := c.queue ++ [.beacon p.b] } with puts := s.puts.set i { p with rem := rest } }
+          else if !cfg.streamIds.contains id then none                              -- a callback of the node itself: plain send
+          else some { endChan s id c with puts := s.puts.set i { p with rem := rest } }
+  | .add id =>
+    if !s.puts.isEmpty then none
+    else match chanOf s id with
+      | some c =>
+        some { setChan s id {} with orphans := s.orphans.filter (·.1 != id) ++ [(id, { c with queue := c.queue ++ [.close] })] }
+      | none => some { s with chans := s.chans ++ [(id, {})] }
+  | .remove id =>
+    if !s.puts.isEmpty then none
+    else match chanOf s id with
+      | some c => some { s with chans := s.chans.filter (·.1 != id), orphans := s.orphans.filter (·.1 != id) ++ [(id, c)] }
+      | none => some s            -- nothing registered under id (e.g. the consumer was ended): its worker is not touched
+  | .addResume => none
+  | e => step cfg s e
+
+/-- the variant switch: which of the two machines the tree under test is (`cfg.ends` is regenerated from the source) -/
+def stepV (cfg : Cfg) (s : St) (e : Ev) : Option St := if cfg.ends then stepR cfg s e else step cfg s e
+
+def runR (cfg : Cfg) : St → List Ev → Option St
+  | s, [] => some s
+  | s, e :: es => match stepR cfg s e with | some s' => runR cfg s' es | none => none
+
+def runSkipR (cfg : Cfg) (s : St) (es : List Ev) : St :=
+  es.foldl (fun s e => (stepR cfg s e).getD s) s
 
 end Drand.Chain.Callback
